@@ -531,7 +531,7 @@ int main(int argc, char **argv) {
 	bool t = opt.thorough();
 	using SM = SeqMutex;
 	if(g_prop != "C04") {
-		uint64_t n = scaled(6, 200); unsigned ops = t ? 6000 : 1500;
+		uint64_t n = scaled(6, 40); unsigned ops = t ? 4000 : 1500;
 		run_cfg<CfgDefault<false, true>, SM>("default/unaligned/poison", n, ops);
 		run_cfg<CfgDefault<true, false>, SM>("default/aligned/plain", n, ops);
 		run_cfg<CfgDefault<true, true>, frg::ticket_spinlock>("default/aligned/poison/ticket", n / 2 + 1, ops);
